@@ -14,6 +14,10 @@ var vhSwapParents = false
 // undecodable. Clock values are symbolic and unconstrained in any case.
 var vhMut struct{ kind, pos int }
 
+// vhFixedShape, when set, replaces the enumeration of parent assignments by one given
+// produced shape (used to reach deeper histories than the exhaustive bound allows).
+var vhFixedShape [][]int
+
 // vhGenDag builds a symbolic commit table of n commits. In valid mode the shape obeys
 // what Commit/merge produce (one root, 1..2 parents, merges empty); clock values are
 // symbolic in both modes and constrained by the caller.
@@ -23,7 +27,9 @@ func vhGenDag(n int, hostile bool, maxParents int) *vhDag {
 	nop := 0
 	for i := 0; i < n; i++ {
 		var ps []int
-		if hostile {
+		if vhFixedShape != nil {
+			ps = append(ps, vhFixedShape[i]...)
+		} else if hostile {
 			ps = vhChooseParents(i, 0, maxParents)
 		} else {
 			ps = vhChooseParents(i, 1, 2)
